@@ -532,6 +532,7 @@ func (e *engine) Run(src *vs.Source, tier string, idx int64) (res *simkit.RunRes
 	}
 	res.Stats["pools_with_revision_operand"] += int64(p.revisions)
 	res.Stats["pools_with_large_operand"] += int64(p.large)
+	res.Stats["pools_with_areal_collection"] += int64(p.arealGCs)
 	res.Stats["pools_with_concurrent_edge_pencil"] += int64(p.pencils)
 	if sc.focus {
 		res.Stats["focus_mode_runs"]++
